@@ -222,7 +222,8 @@ namespace
 
     std::size_t workers = 0;
     uint64_t execs_total = 0;
-    for(int sb = 0; sb <= cfg.sb; ++sb)
+    bool failed = false;
+    for(int sb = 0; sb <= cfg.sb && !failed; ++sb)
     for(int pb = 0; pb <= cfg.pb; ++pb)
     {
       if(sb > 0 && pb < cfg.pb) continue; // spurious wake-ups only on top of the full preemption bound
@@ -280,6 +281,7 @@ namespace
           std::ostringstream key; key << strategy_name(cfg.strat) << " workers=" << workers << " ns=" << cfg.ns << " nc=" << cfg.nc;
           c.fail(key.str(), failure + " [PB=" + std::to_string(pb) + " spurious=" + std::to_string(sb) + " schedule=" + s + "]", s);
         }
+        failed = true;
         break;
       }
       if(c.cut() || ex.stats.capped) break;
@@ -364,6 +366,17 @@ int main(int argc, char** argv)
     for(uint64_t s = 1; s + 1 < (1u << 4); ++s) add(MeshCfg{1, 2, 2, s, false}, ps, pl);
     for(uint64_t s = 1; s + 1 < (1u << 6); ++s) add(MeshCfg{1, 3, 2, s, false}, T ? 2 : 1, 1);
 
+    // larger configurations, default schedule and one preemption: termination, exactly-once, exclusion
+    {
+      std::vector<MeshCfg> big = {MeshCfg{1, 8, 4, 0, true}, MeshCfg{1, 6, 6, 0, true}, MeshCfg{0, 32, 0, 0, true}};
+      if(T) { big.push_back(MeshCfg{1, 8, 8, 0, true}); big.push_back(MeshCfg{1, 16, 4, 0, true}); big.push_back(MeshCfg{0, 48, 0, 0, true}); }
+      for(auto& m : big) for(auto s : all_strategies) for(std::size_t w : {2u, 4u, 6u, 8u, 11u}) for(int fl = 0; fl < 4; ++fl)
+      {
+        Cfg cf; cf.mesh = m; cf.strat = s; cf.maxw = w; cf.ns = (fl & 1) == 0; cf.nc = (fl & 2) != 0; cf.repeats = 1;
+        cf.pb = (w <= 4) ? 1 : 0; cf.sb = 0; cf.max_exec = T ? 1000000u : 100000u;
+        cfgs.push_back(cf);
+      }
+    }
     for(const Cfg& cf : cfgs)
     {
       if(!c.want()) continue;
